@@ -155,14 +155,15 @@ def handle (args : List String) (impl : String) : R Ans :=
         | _ => none)
     let gfa := writeGfa g
     let json := toJsonRestImp g (fun d => toString (d.headD 0)) restKv
-    let model := match gfa, json with
-      | some a, some b => s!"gfa={esc a}|json={esc b}"
-      | _, _ => "panic"
+    let gfaTags := writeGfaTags g fun _ nd => s!"LN:i:{nd.seq.length}\tDA:i:{nd.data.headD 0}"
+    let model := match gfa, json, gfaTags with
+      | some a, some b, some t => s!"gfa={esc a}|json={esc b}|gfatags={esc t}"
+      | _, _, _ => "panic"
     -- property: GFA lists every node once, every adjacency exactly once (a palindromic single-k-mer end: once or
     -- twice) and nothing else; JSON well-formedness is checked by the harness with serde_json (flag `jsonok`)
     let verdict ← do
       match (impl.splitOn "|") with
-      | gfaF :: _ :: flags =>
+      | gfaF :: _ :: _ :: flags =>
         let lines := ((gfaF.drop 4).toString.splitOn "\\n").filter (· ≠ "")
         let sLines := lines.filter (·.startsWith "S\\t")
         let lLines := lines.filter (·.startsWith "L\\t")
@@ -188,16 +189,19 @@ def handle (args : List String) (impl : String) : R Ans :=
           let c := linkPairs.count a
           c == 1 || ((pal a.1.1 || pal a.2.1) && c ≤ 2)
         let jsonOk := flags.any (· == "jsonok=1")
+        -- `to_gfa` writes to a file what `write_gfa` writes to a writer (compared by the harness)
+        let fileOk := flags.any (· == "gfafile=1")
         pure (if ¬ segOk then "FAIL:gfa-segments"
               else if ¬ ovOk then "FAIL:gfa-overlap-field"
               else if ¬ sound then "FAIL:gfa-lists-a-link-that-is-not-an-adjacency"
               else if ¬ complete then "FAIL:gfa-omits-an-adjacency"
               else if ¬ once then "FAIL:gfa-duplicates-a-link"
               else if ¬ jsonOk then "FAIL:json-not-well-formed-or-incomplete"
+              else if ¬ fileOk then "FAIL:to_gfa-file-differs-from-write_gfa"
               else "ok")
       | _ => pure "FAIL:malformed-answer"
     -- the model compares the two texts only (flags are the harness's own checks)
-    let implTexts := "|".intercalate ((impl.splitOn "|").take 2)
+    let implTexts := "|".intercalate ((impl.splitOn "|").take 3)
     pure { model := if implTexts == model then impl else model, verdict }
   | "persist" :: _ => do
     -- serde round trips are outside the model: the harness reports `roundtrip=ok` or the first difference
